@@ -681,7 +681,7 @@ public:
         // max_load_factor() is currently unsafe, so we can assume that my_max_load_factor
         // would not be changed during the calculation
         // TODO: Log2 seems useful here
-        while (necessary_bucket_count * max_load_factor() < elements_count) {
+        while (necessary_bucket_count < highest_bucket_count && necessary_bucket_count * max_load_factor() < elements_count) {
                 necessary_bucket_count <<= 1;
         }
 
@@ -1039,7 +1039,8 @@ private:
 
     void adjust_table_size( size_type total_elements, size_type current_size ) {
         // Grow the table by a factor of 2 if possible and needed
-        if ( (float(total_elements) / float(current_size)) > my_max_load_factor ) {
+        // The number of buckets is a power of two and must stay one: doubling the highest power of two would wrap to zero
+        if ( current_size < highest_bucket_count && (float(total_elements) / float(current_size)) > my_max_load_factor ) {
             // Double the size of the hash only if size hash not changed in between loads
             my_bucket_count.compare_exchange_strong(current_size, 2u * current_size);
         }
@@ -1465,6 +1466,9 @@ private:
     }
 
     std::atomic<size_type> my_size;
+    // The largest power of two that size_type can hold
+    static constexpr size_type highest_bucket_count = size_type(1) << (sizeof(size_type) * 8 - 1);
+
     std::atomic<size_type> my_bucket_count;
     float my_max_load_factor;
     hash_compare_type my_hash_compare;
